@@ -104,13 +104,14 @@ def fillSlots (v : List Int) : List Bytes → Nat → Option (List Int)
     | none => none
     | some n => fillSlots (setSlot v i n) ps (i + 1)
 
-/-- `Version.UnmarshalText` into `old` (the method mutates its receiver; a
-    text without `:` leaves it untouched and succeeds). -/
-def versionUnmarshal (old : Version) (text : Bytes) : Option Version :=
+/-- `Version.UnmarshalText` into a receiver holding `old`.  After the fix the
+    method starts from the zero Version, so `old` plays no part: a text without
+    `:` gives the zero Version, and slots the text does not spell are zero. -/
+def versionUnmarshal (_old : Version) (text : Bytes) : Option Version :=
   match cut 58 text with
-  | none => some old
+  | none => some Version.zero
   | some (kind, rest) =>
-    match fillSlots old.v (splitOn 46 rest) 0 with
+    match fillSlots Version.zero.v (splitOn 46 rest) 0 with
     | none => none
     | some v => some ⟨kind, v⟩
 
@@ -166,11 +167,11 @@ def digestUnmarshal (old : Option Digest) (t : Bytes) : Option Digest × Bool :=
   | some d => (some d, true)
   | none => (old, false)
 
-/-- `Digest.Scan`: `nil` is accepted and leaves the receiver alone, a `string`
-    is decoded (after the fix its error is returned), every other source type
-    (`[]byte` included) is an error. -/
+/-- `Digest.Scan`: `nil` is accepted and gives the zero Digest (after the fix;
+    it used to leave the receiver), a `string` is decoded (its error is
+    returned), every other source type (`[]byte` included) is an error. -/
 def digestScan (old : Option Digest) : Src → Option Digest × Bool
-  | .null => (old, true)
+  | .null => (none, true)
   | .str t => digestUnmarshal old t
   | .bytes _ => (old, false)
   | .int _ => (old, false)
@@ -194,13 +195,14 @@ def fillSlotsX (v : List Int) : List Bytes → Nat → List Int × Bool
     | some n => fillSlotsX (setSlot v i n) ps (i + 1)
 
 /-- `Version.UnmarshalText`: receiver after the call and `err == nil`.  The
-    method assigns `Kind` and the slots as it goes, so on an error the receiver
-    holds the new kind and every slot parsed before the bad component. -/
-def versionUnmarshalX (old : Version) (text : Bytes) : Version × Bool :=
+    method resets the receiver and then assigns `Kind` and the slots as it
+    goes, so on an error the receiver holds the new kind and every slot parsed
+    before the bad component (the rest zero) — never anything of `old`. -/
+def versionUnmarshalX (_old : Version) (text : Bytes) : Version × Bool :=
   match cut 58 text with
-  | none => (old, true)
+  | none => (Version.zero, true)
   | some (kind, rest) =>
-    let r := fillSlotsX old.v (splitOn 46 rest) 0
+    let r := fillSlotsX Version.zero.v (splitOn 46 rest) 0
     (⟨kind, r.1⟩, r.2)
 
 /-! ### toolkit/types/cpe/marshaling.go: the wrappers around C19's Unbind / BindFS
@@ -248,16 +250,22 @@ def toValidUTF8Aux : Nat → Bool → Bytes → Bytes
 
 def toValidUTF8 (s : Bytes) : Bytes := toValidUTF8Aux s.length false s
 
-/-- `(*WFN).UnmarshalText`: the empty text is accepted and leaves the receiver
-    alone, anything else is `Unbind` (`none` = error; after the fix the
-    receiver is then left alone too, which the harness checks directly). -/
-def wfnUnmarshalText {W : Type} (unbind : Bytes → Option W) (old : W) (b : Bytes) : Option W :=
-  if b.isEmpty then some old else unbind b
+/-- `(*WFN).UnmarshalText` into a receiver holding `old`: the empty text is the
+    unset WFN `zero` (after the fix; it used to leave the receiver), anything
+    else is `Unbind` (`none` = error, the receiver is then left alone, which
+    the harness checks directly). -/
+def wfnUnmarshalText {W : Type} (unbind : Bytes → Option W) (zero : W) (_old : W) (b : Bytes) : Option W :=
+  if b.isEmpty then some zero else unbind b
+
+/-- the body `Scan` runs on its string: the empty string "does not error and
+    leaves the WFN in its current state" (documented in marshaling.go) -/
+def wfnScanText {W : Type} (unbind : Bytes → Option W) (old : W) (s : Bytes) : Option W :=
+  if s.isEmpty then some old else unbind s
 
 /-- `(*WFN).Scan`: `string` as is, `[]byte` through `ToValidUTF8`, every other source an error. -/
 def wfnScan {W : Type} (unbind : Bytes → Option W) (old : W) : Src → Option W
-  | .str s => wfnUnmarshalText unbind old s
-  | .bytes b => wfnUnmarshalText unbind old (toValidUTF8 b)
+  | .str s => wfnScanText unbind old s
+  | .bytes b => wfnScanText unbind old (toValidUTF8 b)
   | .null => none
   | .int _ => none
   | .other => none
